@@ -14,6 +14,7 @@ RULE = (
     "daughter order) x random masses inside the allowed ranges, cos(theta) in (-1,1), phi in (-pi,pi); Dalitz points inside "
     "the kinematic boundary. non-trivial = |v|>1e-3 for vectors, every shape for round trips; distinct = case index + shape."
 )
+RULE += '  Also: the round trip with the chain inside a decay group of several topologies (shared sub-decays).'
 ASSUMPTIONS = [
     "round-trip tolerance 1e-8 on squared masses (relative to M_top^2; a massless particle's m=sqrt(E^2-p^2) carries only half the digits), cos(theta) and phi (phi modulo 2pi, weighted by sin(theta)); masses are kept 2% of the window away from the thresholds where angles are ill-conditioned",
     "boost round trip tolerance 1e-9*E*gamma^2 (cancellation in gamma)",
